@@ -99,6 +99,15 @@ def observe(g):
         o["v1"] = observe_view(g, True); o["v2"] = observe_view(g, False)
     else:
         o["v1"] = o["v2"] = None
+
+        def cview(is1):
+            try:
+                v = g.to_dict(is1)
+                return {"points": v["points"], "opp_points": v["opponent_points"], "opp_hand": list(v["opponent_hand"]),
+                        "action": getattr(v["action"], "value", v["action"])}
+            except Exception as e:
+                return "!" + type(e).__name__
+        o["cv1"] = cview(True); o["cv2"] = cview(False)    # what each player is shown once the game is over
     try:
         kc = g.get_knock_candidates() if hasattr(g, "get_knock_candidates") else []
         o["kc"] = [[dw, [list(m) for m in melds]] for dw, melds in kc]
